@@ -133,6 +133,49 @@ def buildFragments? {α} [Add α] [Sub α] [Mul α] [Neg α] (k : Consts α) (ki
     (peps : List (Pep α)) : Option (List (Nat × α)) :=
   if !kinds.isEmpty && peps.any panics then none else some (buildFragments k kinds minIdx peps)
 
+/-! ## `Builder::make_parameters`: the settings that reach the fragment generation
+
+sage-cli deserialises the `database` object of the JSON configuration into `Builder` (every field an
+`Option`) and calls `make_parameters()`:
+
+```
+let bucket_size = self.bucket_size.unwrap_or(8192).next_power_of_two();
+ion_kinds: self.ion_kinds.unwrap_or(vec![Kind::B, Kind::Y]),
+min_ion_index: self.min_ion_index.unwrap_or(2),
+```
+
+An explicit `min_ion_index` (0 included) is used as written: there is no clamp. The right-hand sides
+are regenerated into `Sage.Gen.DATABASE_DEFAULTS` on every run (`Props/C09.lean`, `builder_defaults_source`). -/
+
+/-- the `Builder` fields that matter for the fragment index (`none` = absent / `null` in the JSON) -/
+structure Builder where
+  minIonIndex : Option Nat
+  ionKinds : Option (List Kind)
+  bucketSize : Option Nat
+
+/-- what `Parameters` then holds -/
+structure Params where
+  minIonIndex : Nat
+  ionKinds : List Kind
+  bucketSize : Nat
+deriving DecidableEq, Repr
+
+/-- `usize::next_power_of_two`: the smallest power of two `≥ n` (1 for 0); fuel = bit width -/
+def nextPow2Aux (n : Nat) : Nat → Nat → Nat
+  | 0, p => p
+  | fuel + 1, p => if n ≤ p then p else nextPow2Aux n fuel (2 * p)
+def nextPow2 (n : Nat) : Nat := nextPow2Aux n 64 1
+
+def Builder.makeParameters (b : Builder) : Params :=
+  { minIonIndex := b.minIonIndex.getD 2
+    ionKinds := b.ionKinds.getD [.b, .y]
+    bucketSize := nextPow2 (b.bucketSize.getD 8192) }
+
+/-- the whole configured path: JSON `database` object → `Builder` → `make_parameters` → fragments -/
+def buildFromBuilder? {α} [Add α] [Sub α] [Mul α] [Neg α] (k : Consts α) (b : Builder)
+    (peps : List (Pep α)) : Option (List (Nat × α)) :=
+  buildFragments? k b.makeParameters.ionKinds b.makeParameters.minIonIndex peps
+
 /-! ## specification, written from the property text
 
 Ordinals: the `j`-th value of an a/b/c series is the ion of ordinal `j + 1` (it contains the first
